@@ -390,8 +390,8 @@ func (p *ReverseProxy) clusterInvoke(srv *BfeServer, cluster *bfe_cluster.BfeClu
 			allowRetry = checkAllowRetry(cluster.RetryLevel(), outreq)
 
 			// if error is caused by backend server
-			rerr := err.(bfe_http.WriteRequestError)
-			if !rerr.CheckTargetError(request.RemoteAddr) {
+			rerr, ok := err.(interface{ CheckTargetError(addr net.Addr) bool })
+			if ok && !rerr.CheckTargetError(request.RemoteAddr) {
 				backend.OnFail(cluster.Name)
 			}
 
